@@ -9,6 +9,8 @@ import (
 	"hash/fnv"
 	"io"
 	"math"
+	"math/big"
+	"strings"
 
 	"github.com/db47h/decimal"
 	verifrt "github.com/db47h/decimal/verifrt"
@@ -274,6 +276,27 @@ func genGob(seed uint64, tier string) *Scenario {
 	if r.chance(0.04) {
 		// precision field at the edges of uint32 (the value itself stays small)
 		v.Prec = []uint32{math.MaxUint32, math.MaxUint32 - 17, math.MaxUint32 - 18, math.MaxUint32 - 19, 1 << 31, 1<<31 - 1}[r.intn(6)]
+	}
+	if r.chance(0.15) && v.Form == 1 {
+		// a value that is an exact tie (or a hair off a tie / all nines) at the
+		// receiver's precision: decoding into a preset receiver must round it once
+		p := r.rangeI(1, 40)
+		var sb strings.Builder
+		switch r.intn(3) {
+		case 0:
+			sb.WriteByte(byte('1' + r.intn(9)))
+			for i := 1; i < p; i++ {
+				sb.WriteByte(byte('0' + r.intn(10)))
+			}
+		default:
+			sb.WriteString(strings.Repeat("9", p))
+		}
+		sb.WriteString(r.pickS("5", "5", "50000000000000000000", "49999999999999999999", "50000000000000000001", "95", "99999999999999999995"))
+		x, _ := new(big.Int).SetString(sb.String(), 10)
+		v.Words = bigToWords(x)
+		v.Prec = uint32(len(v.Words) * wordDigits)
+		pr := uint32(p)
+		defer func() { sc.Bytes.RecvPrec = pr }()
 	}
 	sc.Vars = []VarSpec{v}
 	// an operation that produces a non-exact accuracy on the value to transmit
